@@ -402,7 +402,7 @@ impl Xot {
             return Ok(local_name.to_string());
         }
         // look up the prefix for the namespace
-        if let Some(prefix) = self.prefix_for_namespace(node, namespace) {
+        if let Some(prefix) = self.prefix_for_name_in_namespace(node, namespace) {
             let prefix = self.prefix_str(prefix);
             if !prefix.is_empty() {
                 Ok(format!("{}:{}", prefix, local_name))
@@ -422,6 +422,25 @@ impl Xot {
     /// instructions this is a name based on the target attribute.
     ///
     /// For anything else, it's `None`.
+    /// The prefix to write a name in a namespace with in the context of a node.
+    ///
+    /// If the context is an attribute node, the name is an attribute name, and
+    /// an attribute in a namespace cannot use the default namespace: only a
+    /// non-empty prefix will do.
+    pub(crate) fn prefix_for_name_in_namespace(
+        &self,
+        node: Node,
+        namespace: NamespaceId,
+    ) -> Option<PrefixId> {
+        if self.is_attribute_node(node) {
+            self.namespaces_in_scope(node)
+                .find(|(prefix, ns)| *ns == namespace && *prefix != self.empty_prefix())
+                .map(|(prefix, _)| prefix)
+        } else {
+            self.prefix_for_namespace(node, namespace)
+        }
+    }
+
     pub fn node_name(&self, node: Node) -> Option<NameId> {
         match self.value(node) {
             Value::Element(element) => Some(element.name()),
